@@ -162,7 +162,7 @@ def injected(inj: Injector):
 
 def cases(tier: str) -> list[dict[str, Any]]:
     cs = []
-    for entry in ["api_inplace", "api_output", "api_output_existing", "cli_inplace", "cli_two_inplace", "cli_stdin_o", "cli_two_bad_second", "api_bad"]:
+    for entry in ["api_inplace", "api_output", "api_output_existing", "cli_inplace", "cli_two_inplace", "cli_stdin_o", "cli_two_bad_second", "api_bad", "api_inplace_link", "cli_inplace_link"]:
         for fm in range(4):  # the fault mode is fixed per case only to spread the work over the cores
             cs.append(dict(key=f"fault/{entry}/mode{fm}", kind="fault", entry=entry, fmode=fm, cost=(2 if "two" in entry else 1) * (3 if fm >= 2 else 1)))
     cs.append(dict(key="twin/fault", kind="fault", entry="api_inplace", twin=True))
@@ -210,6 +210,13 @@ def run(env: Any, case: dict[str, Any]) -> Any:
             b.write_bytes(BAD)
         if entry == "api_bad":
             a.write_bytes(BAD)
+        real = root / "real" / "r.md"
+        if entry.endswith("_link"):
+            # the path given is a symbolic link to the file
+            real.parent.mkdir()
+            a.unlink()
+            real.write_text(OLD)
+            os.symlink(real, a)
         if stale:
             (root / "a.md.orig").write_text("stale backup\n")
         if entry == "api_output_existing":
@@ -222,13 +229,13 @@ def run(env: Any, case: dict[str, Any]) -> Any:
         with contextlib.redirect_stdout(sink), contextlib.redirect_stderr(io.StringIO()):
             try:
                 with injected(inj):
-                    if entry == "api_inplace":
+                    if entry in ("api_inplace", "api_inplace_link"):
                         ra.reformat_file(a, None, inplace=True, nobackup=nobackup, semantic=True)
                     elif entry in ("api_output", "api_output_existing"):
                         ra.reformat_file(a, o, semantic=True)
                     elif entry == "api_bad":
                         ra.reformat_file(a, None, inplace=True, nobackup=nobackup, semantic=True)
-                    elif entry == "cli_inplace":
+                    elif entry in ("cli_inplace", "cli_inplace_link"):
                         outcome = f"exit{cli.main(['--inplace', '--semantic', 'a.md'] + (['--nobackup'] if nobackup else []))}"
                     elif entry in ("cli_two_inplace", "cli_two_bad_second"):
                         outcome = f"exit{cli.main(['--inplace', '--semantic', 'a.md', 'b.md'] + (['--nobackup'] if nobackup else []))}"
@@ -257,7 +264,13 @@ def run(env: Any, case: dict[str, Any]) -> Any:
                 return bk == old
             return cur is None and bk == old
 
-        if entry in ("api_inplace", "cli_inplace"):
+        if entry.endswith("_link"):
+            R = _read(real)
+            state["link-target"] = R
+            env.prove(file_ok(A, OLD, new, BK, old_bk), label, state)
+            env.prove(R in (OLD, new), label + ":link-target-whole", state)
+            env.prove(B == OLD2, label + ":other-file", state)
+        elif entry in ("api_inplace", "cli_inplace"):
             env.prove(file_ok(A, OLD, new, BK, old_bk), label, state)
             env.prove(B == OLD2, label + ":other-file", state)
             if inj.fired is False and mode == 0:
